@@ -70,7 +70,7 @@ func (fc *funcCtx) unknownCall(st *State, com *ssa.CallCommon, args []Value) Val
 			}
 		case SliceV:
 			for k := range st.heaps {
-				st.heaps[k] = st.freshConst("heap", heapSort(k))
+				st.heaps[k] = st.freshConst("heap", heapSort(sortOfHeapKey(k)))
 			}
 		}
 	}
@@ -211,27 +211,31 @@ func (fc *funcCtx) appendCall(st *State, ins ssa.Instruction, com *ssa.CallCommo
 		fresh := app("+", st.allocBase, smtInt(int64(st.allocOff)))
 		st.allocOff++
 		st.assume(fmt.Sprintf("(ite %s (and (= %s %s) (= %s %s) (= %s %s)) (and (= %s %s) (= %s 0) (>= %s %s)))", inPlace, ref, dst.Ref, off, dst.Off, cp, dst.Cap, ref, fresh, off, cp, newLen))
-		if scalar {
-			h := fc.heap(st, es)
-			var srcH string
-			if ss, ok := scalarSort(src.Elem); ok {
-				srcH = fc.heap(st, ss)
+		_ = scalar
+		_ = es
+		dls, _ := leavesOf(dst.Elem)
+		sls, _ := leavesOf(src.Elem)
+		for li, l := range dls {
+			h := fc.heap(st, l.key)
+			srcH := ""
+			if li < len(sls) {
+				srcH = fc.heap(st, sls[li].key)
 			}
-			nh := st.freshConst("heap", heapSort(es))
+			nh := st.freshConst("heap", heapSort(l.sort))
 			// other references unchanged; target row: old prefix kept/copied, new elements appended
-			st.assume(fmt.Sprintf("(forall ((r Int)) (! (=> (not (= r %s)) (= (select %s r) (select %s r))) :pattern ((select %s r))))", ref, nh, h, nh))
+			st.assume(frameOtherRows(nh, h, ref))
 			st.assume(fmt.Sprintf("(forall ((i Int)) (! (=> (and (<= 0 i) (< i %s)) (= (select (select %s %s) (+ %s i)) (select (select %s %s) (+ %s i)))) :pattern ((select (select %s %s) (+ %s i)))))", dst.Len, nh, ref, off, h, dst.Ref, dst.Off, nh, ref, off))
 			if srcH != "" {
 				st.assume(fmt.Sprintf("(forall ((i Int)) (! (=> (and (<= 0 i) (< i %s)) (= (select (select %s %s) (+ %s %s i)) (select (select %s %s) (+ %s i)))) :pattern ((select (select %s %s) (+ %s %s i)))))", n, nh, ref, off, dst.Len, srcH, src.Ref, src.Off, nh, ref, off, dst.Len))
 			}
 			// in place: cells of the row outside [off+len, off+len+n) keep their value
 			st.assume(fmt.Sprintf("(=> %s (forall ((j Int)) (! (=> (or (< j (+ %s %s)) (>= j (+ %s %s %s))) (= (select (select %s %s) j) (select (select %s %s) j))) :pattern ((select (select %s %s) j)))))", inPlace, off, dst.Len, off, dst.Len, n, nh, ref, h, dst.Ref, nh, ref))
-			st.heaps[es] = nh
-			if fc.frameChecked() {
-				fc.oblige(st, "frame", "append/"+fc.site(ins.Pos(), "call"), app(">=", ref, st.entryBase), "append writes only storage allocated by this call")
-			}
+			st.heaps[l.key] = nh
 		}
-		return SliceV{ref, off, newLen, cp, dst.Elem}
+		if fc.frameChecked() {
+			fc.oblige(st, "frame", "append/"+fc.site(ins.Pos(), "call"), app(">=", ref, st.entryBase), "append writes only storage allocated by this call")
+		}
+		return SliceV{Ref: ref, Off: off, Len: newLen, Cap: cp, Elem: dst.Elem}
 	case Sc: // append([]byte, string...)
 		fc.abort("append(bytes, string...) not supported")
 	}
@@ -391,6 +395,36 @@ func (fc *funcCtx) nativeCall(st *State, ins ssa.Instruction, key string, callee
 		}
 		st.assume(fmt.Sprintf("(forall ((i Int)) (! (=> (and (<= 0 i) (< i (str.len %s))) %s) :pattern ((str.at %s i))))", s.T, and(posts...), r))
 		return Sc{r, SStr}, true, false
+	case "lukechampine.com/blake3.Sum256":
+		use("blake3.Sum256 is a function of the bytes hashed (uninterpreted; collision-freedom is a separate named assumption)")
+		sv, ok := args[0].(SliceV)
+		if !ok || sv.Str == "" {
+			fc.abort("blake3.Sum256 of bytes whose text is unknown")
+		}
+		return Sc{app("blake3sum", sv.Str), SStr}, true, false
+	case "encoding/hex.EncodeToString":
+		use("hex.EncodeToString is an injective function of its input, doubling the length")
+		sv, ok := args[0].(SliceV)
+		if !ok || sv.Str == "" {
+			fc.abort("hex.EncodeToString of bytes whose text is unknown")
+		}
+		return Sc{app("hexenc", sv.Str), SStr}, true, false
+	case "sort.Strings":
+		use("sort.Strings on two elements leaves (min, max) under Go's string order")
+		sv, ok := args[0].(SliceV)
+		if !ok {
+			fc.abort("sort.Strings on %T", args[0])
+		}
+		if sv.Len != "2" {
+			fc.abort("sort.Strings is modelled for two-element slices only")
+		}
+		h := fc.heap(st, SStr)
+		a := app("select", app("select", h, sv.Ref), sv.Off)
+		b := app("select", app("select", h, sv.Ref), plus(sv.Off, "1"))
+		lo := fmt.Sprintf("(ite (str.lt %s %s) %s %s)", b, a, b, a)
+		hi := fmt.Sprintf("(ite (str.lt %s %s) %s %s)", b, a, a, b)
+		st.heaps[SStr] = app("store", h, sv.Ref, app("store", app("store", app("select", h, sv.Ref), sv.Off, lo), plus(sv.Off, "1"), hi))
+		return TupleV{}, true, false
 	case "errors.New", "fmt.Errorf":
 		use(key + " returns a non-nil error")
 		return IfaceV{Nil: "false", Tag: st.freshConst("errtag", SInt)}, true, false
